@@ -295,6 +295,7 @@ class ProgramGen(object):
         self.size = size
         self.scopes = [dict()]          # name -> ('trn', type) | ('int', kl) | ('ins', kl)
         self.counter = 0
+        self.names = set()              # every variable name used in this body (exact spelling)
         self.loop = 0
         self.feats = feats              # None = everything; else a set of statement-kind names
         self.stats = {}
@@ -320,8 +321,21 @@ class ProgramGen(object):
         return sorted(out)
 
     def fresh(self, prefix):
+        """a name no variable of this body has yet.  OAL variable names are case-sensitive (only keywords are
+        not): about a quarter of the fresh names are an existing name of this body in ANOTHER letter case
+        (i1 / I1, ds2 / Ds2 / DS2), i.e. a DIFFERENT variable, possibly of another kind or type, also across
+        nested blocks"""
+        if self.names and self.r.random() < 0.25:
+            base = self.r.choice(sorted(self.names))
+            for cand in self.r.sample([base.upper(), base.capitalize(), base.lower()], 3):
+                if cand not in self.names and cand.lower() not in KEYWORDS:
+                    self.names.add(cand)
+                    self.stats['case_variant_names'] = self.stats.get('case_variant_names', 0) + 1
+                    return cand
         self.counter += 1
-        return '%s%d' % (prefix, self.counter)
+        name = '%s%d' % (prefix, self.counter)
+        self.names.add(name)
+        return name
 
     def declare(self, name, info):
         self.scopes[-1][name] = info
